@@ -74,6 +74,10 @@ func ssCase(c *mon.Case, r *mon.Run, dir string, f fault, attack string, seed ui
 		s2c.SetCut(f.off, memwire.CutEOF)
 	case "rst":
 		cutWithError(s2c, f.off)
+		if seed%3 == 1 {
+			cw.SetResetFailsWrites(true)
+			r.Count("resets_that_also_fail_writes", 1)
+		}
 	case "silence":
 		s2c.SetCut(f.off, memwire.CutSilence)
 	case "flip":
@@ -662,6 +666,10 @@ func socksCase(c *mon.Case, r *mon.Run, kind string, off int, garbage bool, seed
 		cw.Out().CloseWrite()
 	case "rst":
 		cutWithError(cw.Out(), int64(off))
+		if seed%3 == 1 {
+			sw.SetResetFailsWrites(true)
+			r.Count("resets_that_also_fail_writes", 1)
+		}
 	case "silence":
 	}
 	time.Sleep(60 * time.Second)
